@@ -143,10 +143,14 @@ func (s *String) ReadFrom(r io.Reader) (n int64, err error) {
 func readByte(r io.Reader) (int64, byte, error) {
 	if r, ok := r.(io.ByteReader); ok {
 		v, err := r.ReadByte()
-		return 1, v, err
+		if err != nil {
+			return 0, 0, err
+		}
+		return 1, v, nil
 	}
+	// a Reader may return the byte together with io.EOF, or no byte and no error
 	var v [1]byte
-	n, err := r.Read(v[:])
+	n, err := io.ReadFull(r, v[:])
 	return int64(n), v[0], err
 }
 
